@@ -119,6 +119,8 @@ struct Shape {
     empty_super: bool,
     empty_uuid: bool,
     bfdb_grows: bool,
+    /// rebuilding a bfdb box from its accessors (`media_type()`, `file_name()`) writes other bytes
+    bfdb_accessor: bool,
     salts: usize,
     kinds: std::collections::BTreeSet<String>,
 }
@@ -153,6 +155,15 @@ fn dump_super(sb: &JUMBFSuperBox, depth: usize, sh: &mut Shape) -> String {
             s.push_str(&format!("bfdb:{}:{}:{}:{}", psize, hex(&pl), hex(m.media_type().as_bytes()), fname));
             if pl.len() >= 2 && pl[0] == 1 && pl[1..pl.len() - 1].contains(&0) {
                 sh.bfdb_grows = true;
+            }
+            // the accessor path of re-serialisation (`Store::get_assertion_from_jumbf_store` reads `media_type()`,
+            // `add_assertion_to_jumbf_store` builds the box again with `new`): identity on the written bytes
+            let interior_nul = pl.len() >= 2 && pl[1..pl.len() - 1].contains(&0);
+            if !pl.is_empty() && pl[0] <= 1 && !interior_nul {
+                let rebuilt = hook::JUMBFEmbeddedFileDescriptionBox::new(m.media_type(), if pl[0] == 1 { Some(m.file_name().unwrap_or_default()) } else { None });
+                if written_payload(&rebuilt) != pl {
+                    sh.bfdb_accessor = true;
+                }
             }
         } else {
             if let Some(u) = sb.data_box_as_uuid_box(i) {
@@ -276,7 +287,9 @@ fn t_build_super(t: &T) -> JUMBFSuperBox {
             sb
         }
         T::N { uuid, label, salt, kids } => {
-            let mut d = hook::JUMBFDescriptionBox::new(label, Some(&hex(uuid)));
+            // the UUID string in lower, upper or mixed case (chosen from the value, so that the run is reproducible)
+            let mut cr = Rng::new(uuid.iter().fold(label.len() as u64, |a, b| a.wrapping_mul(31).wrapping_add(*b as u64)));
+            let mut d = hook::JUMBFDescriptionBox::new(label, Some(&hex_case(&mut cr, uuid)));
             if let Some(sa) = salt {
                 // a refused salt (shorter than 16 bytes) leaves the box as it was
                 let _ = d.set_salt(sa.clone());
@@ -308,8 +321,36 @@ fn t_build(t: &T) -> Box<dyn BMFFBox> {
 
 const LEAF_KINDS: [char; 6] = ['j', 'c', 'f', 'p', 'b', 'd'];
 
+/// A non-empty string without NUL over a wide alphabet: upper / lower / mixed case, digits, spaces,
+/// separators, non-ASCII UTF-8 (also letters with case: É é İ ß Σ), so that any accessor that folds case,
+/// trims, or normalises a string-valued field changes the bytes of some generated value.
+fn gen_text(r: &mut Rng, max: u64) -> String {
+    let alpha = ['A', 'Z', 'a', 'z', 'J', 'P', 'E', 'G', 'm', 'X', '0', '9', ' ', '/', '+', '.', ';', '=', '-', '_', ':', ',', '"', '\\', '\t', 'É', 'é', 'İ', 'ß', 'Σ', '€', '😀', '\u{7f}'];
+    let n = r.range(1, max);
+    (0..n).map(|_| *r.pick(&alpha)).collect()
+}
+
+/// media types as callers spell them (not only the lower-case strings the SDK generates)
+fn gen_media_type(r: &mut Rng) -> String {
+    let fixed = ["image/png", "image/JPEG", "Image/Png", "IMAGE/SVG+XML", "image/svg+xml; charset=UTF-8", "application/X-É", " image/jpeg ", "a", "A", "text/Plain;Format=Flowed", "application/vnd.Adobe.Photoshop"];
+    if r.chance(1, 2) { r.pick(&fixed).to_string() } else { gen_text(r, 24) }
+}
+
+/// a 32-digit hex string in lower, upper or mixed case (what `from_hex` / `hex::decode` accept)
+fn hex_case(r: &mut Rng, u: &[u8; 16]) -> String {
+    let h = hex::encode(u);
+    match r.below(3) {
+        0 => h,
+        1 => h.to_uppercase(),
+        _ => h.chars().map(|c| if r.chance(1, 2) { c.to_ascii_uppercase() } else { c }).collect(),
+    }
+}
+
 fn gen_label(r: &mut Rng, wf: bool) -> Vec<u8> {
     let ascii = |r: &mut Rng, n: usize| -> Vec<u8> { (0..n).map(|_| *r.pick(b"abcxyz.019_-ACZ")).collect() };
+    if r.chance(1, 4) {
+        return gen_text(r, 20).into_bytes();
+    }
     match r.below(if wf { 4 } else { 7 }) {
         0 => ascii(r, 1),
         1 | 2 => { let n = r.range(1, 12) as usize; ascii(r, n) }
@@ -339,8 +380,7 @@ fn gen_label(r: &mut Rng, wf: bool) -> Vec<u8> {
 }
 
 fn gen_media(r: &mut Rng, wf: bool) -> (u8, Vec<u8>, Option<Vec<u8>>) {
-    let mts: Vec<&[u8]> = vec![b"image/png", b"image/jpeg", b"a", b"application/x-\xc3\xa9"];
-    let mt = r.pick(&mts[..]).to_vec();
+    let mt = gen_media_type(r).into_bytes();
     if wf {
         // canonical forms only: what the reader itself would produce
         if r.chance(1, 3) { (1, mt, Some(vec![0])) } else { (*r.pick(&[0u8, 2, 0x80]), mt, None) }
@@ -697,10 +737,18 @@ fn make_stores(run: &mut Run, rng: &mut Rng) -> Vec<Made> {
             }
             // thumbnail resource + extra resource-bearing assertion
             let mut def = base_def("thumb", fmt, 2, &mut r);
-            def["thumbnail"] = serde_json::json!({"format": "image/jpeg", "identifier": "thumb.jpg"});
+            // the format as a caller may spell it (definition field or Builder::set_thumbnail)
+            let tfmt = r.pick(&["image/jpeg", "image/JPEG", "Image/Png", "IMAGE/SVG+XML", "application/X-Verif", " image/jpeg "]).to_string();
+            let via_setter = r.chance(1, 2);
+            if !via_setter {
+                def["thumbnail"] = serde_json::json!({"format": tfmt, "identifier": "thumb.jpg"});
+            }
             let tn = r.range(1, 300) as usize;
             let thumb = r.bytes(tn);
-            let res = sign_with(&def, &settings_json(false, false), fmt, &src, |b| { b.add_resource("thumb.jpg", Cursor::new(thumb.clone()))?; Ok(()) });
+            let res = sign_with(&def, &settings_json(false, false), fmt, &src, |b| {
+                if via_setter { b.set_thumbnail(tfmt.clone(), &mut Cursor::new(thumb.clone()))?; } else { b.add_resource("thumb.jpg", Cursor::new(thumb.clone()))?; }
+                Ok(())
+            });
             let parent = push(run, &mut out, format!("thumb:{file}:{round}"), fmt, res);
             // edit with parent ingredient (store with two manifests + ingredient thumbnail), optional redaction
             if let Some(parent) = parent {
@@ -849,6 +897,9 @@ fn box_oracle(run: &mut Run, idx: usize, sh: &Shape, p: &Parsed, tag: &str) {
     if sh.empty_uuid { run.count("quirk_empty_uuid"); }
     if sh.bfdb_grows { run.count("quirk_bfdb_nul"); }
     if sh.salts > 0 { run.count("with_salt"); }
+    if sh.bfdb_accessor {
+        run.fail(idx, "bfdb-accessor", format!("[{tag}] a bfdb box rebuilt from media_type() / file_name() is written with other bytes than the box that was read"));
+    }
     if !quirk {
         // the partial fixed-point theorem evaluated on the implementation
         match (&p.ser2, &p.second_err) {
@@ -981,7 +1032,11 @@ fn u16b(h: &str) -> [u8; 16] {
 fn gen_ctor_label(r: &mut Rng, ok: bool) -> String {
     let good = ["c2pa.actions", "org.verif.t1", "a", "é€😀", "c2pa.thumbnail.claim.jpeg", "did:x:1/../y", "c2pa.assertions", "x y\t\u{7f}"];
     let bad = ["", "a\0b", "\0", "c2pa.hash.data\0", "\0tail", "é\0€"];
-    if ok || r.chance(1, 2) { r.pick(&good).to_string() } else { r.pick(&bad).to_string() }
+    if ok || r.chance(1, 2) {
+        if r.chance(1, 2) { r.pick(&good).to_string() } else { gen_text(r, 24) }
+    } else {
+        r.pick(&bad).to_string()
+    }
 }
 
 fn label_ok(l: &str) -> bool {
@@ -1015,8 +1070,8 @@ fn gen_ctor_kids(r: &mut Rng, depth: usize, wf: bool) -> Vec<T> {
             let n = if wf { r.range(1, 12) } else { *r.pick(&[0u64, 0, 4]) } as usize;
             T::U(u, r.bytes(n))
         } else {
-            let mt = if wf || r.chance(1, 2) { r.pick(&["image/png", "image/jpeg", "a", "application/x-é"]).to_string() } else { r.pick(&["", "image/\0png", "\0"]).to_string() };
-            let f = if r.chance(1, 2) { None } else { Some(r.pick(&["name.png", "", "a\0b", "é.jpg"]).to_string()) };
+            let mt = if wf || r.chance(1, 2) { gen_media_type(r) } else { r.pick(&["", "image/\0png", "\0", "Image/\0PNG"]).to_string() };
+            let f = if r.chance(1, 2) { None } else if r.chance(1, 2) { Some(gen_text(r, 16)) } else { Some(r.pick(&["name.png", "", "a\0b", "É.JPG"]).to_string()) };
             T::Mn(mt, f)
         });
     }
@@ -1024,7 +1079,7 @@ fn gen_ctor_kids(r: &mut Rng, depth: usize, wf: bool) -> Vec<T> {
 }
 
 fn gen_ctor_tree(r: &mut Rng, depth: usize, wf: bool) -> T {
-    let uuid = u16b(*r.pick(&[U_JSON, U_CBOR, U_UUID, U_EMBEDDED, U_C2AS, U_C2MA]));
+    let uuid = if r.chance(1, 3) { let mut u = [0u8; 16]; u.copy_from_slice(&r.bytes(16)); u } else { u16b(*r.pick(&[U_JSON, U_CBOR, U_UUID, U_EMBEDDED, U_C2AS, U_C2MA])) };
     T::N { uuid, label: gen_ctor_label(r, wf), salt: gen_ctor_salt(r), kids: gen_ctor_kids(r, depth, wf) }
 }
 
@@ -1060,13 +1115,13 @@ fn gen_wrapper(r: &mut Rng, wf: bool) -> (Vec<u8>, T) {
             u.copy_from_slice(&r.bytes(16));
             let data = if wf && data.is_empty() { vec![0u8; 4] } else { data };
             let mut b = hook::CAIUUIDAssertionBox::new(&label);
-            b.add_uuid(&hex::encode_upper(u), data.clone()).expect("16-byte uuid");
+            b.add_uuid(&hex_case(r, &u), data.clone()).expect("16-byte uuid");
             if let Some(sa) = &salt { let _ = b.set_salt(sa.clone()); }
             (written(b.super_box()), T::N { uuid: u16b(U_UUID), label, salt, kids: vec![T::U(u, data)] })
         }
         3 => {
-            let mt = r.pick(&["image/png", "image/jpeg", "a"]).to_string();
-            let f = if r.chance(1, 2) { None } else { Some("name.png".to_string()) };
+            let mt = gen_media_type(r);
+            let f = if r.chance(1, 2) { None } else { Some(gen_text(r, 12)) };
             let mut b = hook::JumbfEmbeddedFileBox::new(&label);
             b.add_data(data.clone(), mt.clone(), f.clone());
             if let Some(sa) = &salt { let _ = b.set_salt(sa.clone()); }
@@ -1212,6 +1267,11 @@ fn claim_stores(run: &mut Run, rng: &mut Rng) -> Vec<Made> {
             }
             let mut ok = hook::claim_add_user_assertion(&mut c, "org.verif.a", &serde_json::json!({"n": r.below(1000)}).to_string()).is_ok();
             if r.chance(1, 2) {
+                // a caller-chosen label over the wide alphabet (no `__`, which is the instance separator)
+                let l = format!("Org.Verif.{}", gen_text(&mut r, 10).replace("__", "_x").replace('/', "-"));
+                if hook::claim_add_user_assertion(&mut c, &l, "{\"b\":2}").is_err() { run.count("claim_label_refused_by_api"); }
+            }
+            if r.chance(1, 2) {
                 ok &= hook::claim_add_user_cbor_assertion(&mut c, "org.verif.c", vec![0xa1, 0x61, 0x6b, 0x18, r.next() as u8]).is_ok();
             }
             if kind.contains("databox") {
@@ -1230,8 +1290,12 @@ fn claim_stores(run: &mut Run, rng: &mut Rng) -> Vec<Made> {
                 }
             }
             if kind == "embedded" {
-                ok &= hook::claim_add_embedded_data(&mut c, "c2pa.thumbnail.claim", "image/png", r.bytes(20)).is_ok();
-                ok &= hook::claim_add_embedded_data(&mut c, "c2pa.embedded-data", *r.pick(&["", "application/x-é"]), vec![]).is_ok();
+                let ct = gen_media_type(&mut r);
+                ok &= hook::claim_add_embedded_data(&mut c, "c2pa.thumbnail.claim", &ct, r.bytes(20)).is_ok();
+                let ct2 = if r.chance(1, 3) { String::new() } else { gen_media_type(&mut r) };
+                ok &= hook::claim_add_embedded_data(&mut c, "c2pa.embedded-data", &ct2, vec![]).is_ok();
+                let ct3 = gen_media_type(&mut r);
+                ok &= hook::claim_add_embedded_data(&mut c, "c2pa.icon", &ct3, r.bytes(5)).is_ok();
             }
             if kind == "label-nul" {
                 ok &= hook::claim_add_user_assertion(&mut c, *r.pick(&["org.verif\0x", "\0", "org.verif.t\0"]), "{\"a\":1}").is_ok();
@@ -1418,8 +1482,9 @@ pub fn run(run: &mut Run, rng: &mut Rng) {
             run.count(if ok { "ctor_labels_ok" } else { "ctor_unreadable_label" });
             let before = run.impls.len();
             tree_case_with(run, &mut ctl, &t, wf, None, false);
-            if !ok {
-                // `new_unreadable`: the real reader must reject what the real constructor + writer made
+            let top_bad = matches!(&t, T::N { label, .. } if !label_ok(label));
+            if top_bad {
+                // `new_unreadable` (about the outermost box): the real reader must reject what the real constructor + writer made
                 let reply = run.impls.get(before).cloned().unwrap_or_default();
                 if reply.contains(" ok end=") {
                     let idx = run.impls.len() - 1;
